@@ -25,6 +25,9 @@ pub struct MockRegion {
     start: u64,
     len: u64,
     ptr: *mut u8, // 16-byte aligned heap block of max(len,1) bytes
+    /// false: a "device memory" region that knows its host address but cannot hand out slices - its get_slice
+    /// answers what the trait's provided default answers (HostAddressNotAvailable); kind 3 of suite C02
+    slices: bool,
 }
 impl MockRegion {
     pub fn new(start: u64, len: u64) -> MockRegion {
@@ -32,7 +35,12 @@ impl MockRegion {
         // SAFETY: non-zero size layout
         let ptr = unsafe { std::alloc::alloc_zeroed(lay) };
         assert!(!ptr.is_null());
-        MockRegion { start, len, ptr }
+        MockRegion { start, len, ptr, slices: true }
+    }
+    pub fn host_only(start: u64, len: u64) -> MockRegion {
+        let mut r = MockRegion::new(start, len);
+        r.slices = false;
+        r
     }
     pub fn host_ptr(&self) -> *mut u8 {
         self.ptr
@@ -112,6 +120,10 @@ impl GuestMemoryRegion for MockRegion {
     }
     // same checks as MmapRegion::get_slice (compute_end_offset), over the heap block
     fn get_slice(&self, offset: MemoryRegionAddress, count: usize) -> guest_memory::Result<VolatileSlice<BS<()>>> {
+        if !self.slices {
+            // what GuestMemoryRegion::get_slice does when an implementor does not provide it (guest_memory.rs)
+            return Err(GmError::HostAddressNotAvailable);
+        }
         let off = offset.raw_value() as usize;
         let end = off.checked_add(count).ok_or(GmError::InvalidBackendAddress)?;
         if end > self.len as usize {
@@ -167,7 +179,8 @@ fn memfd(size: u64) -> Arc<std::fs::File> {
         Arc::new(std::fs::File::from_raw_fd(fd))
     }
 }
-/// kind 0: anonymous GuestMemoryMmap, 1: MockMem, 2: file-backed (memfd, MAP_SHARED) GuestMemoryMmap
+/// kind 0: anonymous GuestMemoryMmap, 1: MockMem, 2: file-backed (memfd, MAP_SHARED) GuestMemoryMmap,
+/// 3: MockMem whose regions provide get_host_address but no get_slice (suite C02, all queries except get_slice)
 pub fn build(kind: u64, lay: &[(u64, u64)]) -> Built {
     if kind == 0 || kind == 2 {
         let mut files = Vec::new();
@@ -230,7 +243,8 @@ pub fn build(kind: u64, lay: &[(u64, u64)]) -> Built {
         };
         Built { files, mem: Mem::Mmap(mem, arcs), lay: lay.to_vec(), bases, regs }
     } else {
-        let regions: Vec<MockRegion> = lay.iter().map(|&(s, l)| MockRegion::new(s, l)).collect();
+        let regions: Vec<MockRegion> =
+            lay.iter().map(|&(s, l)| if kind == 3 { MockRegion::host_only(s, l) } else { MockRegion::new(s, l) }).collect();
         let bases = regions.iter().map(|r| r.host_ptr()).collect();
         let mem = MockMem { regions };
         let regs = mem.regions.iter().map(|r| r as *const MockRegion as *const u8).collect();
@@ -472,8 +486,8 @@ fn gen(rng: &mut Rng, tier: Tier, emit: &mut dyn FnMut(Vec<Tok>)) {
     let u = universe();
     let nlay = if tier == Tier::Quick { 60 } else { 1500 };
     let big = [0u64, 1, 2, 3, 5, 8, 17, 47, 48, 49, 1 << 32, (1 << 63) - 1, 1 << 63, TOP - 24, TOP - 1, TOP];
-    for kind in [0u64, 1] {
-        for li in 0..nlay {
+    for kind in [0u64, 1, 3] {
+        for li in 0..(if kind == 3 { nlay / 3 } else { nlay }) {
             let maxsz = if li % 3 == 0 { 3 } else { 8 };
             let lay = small_layout(rng, kind, maxsz, 5);
             let head = lay_toks(kind, &lay);
@@ -515,8 +529,10 @@ fn gen(rng: &mut Rng, tier: Tier, emit: &mut dyn FnMut(Vec<Tok>)) {
                 for &l in &lens {
                     q(5, a, l, 0);
                 }
-                for &l in lens.iter().take(8) {
-                    q(8, a, l, 0);
+                if kind != 3 {
+                    for &l in lens.iter().take(8) {
+                        q(8, a, l, 0);
+                    }
                 }
             }
             // region-level provided methods
